@@ -15,7 +15,7 @@ def run():
     if not r['ok']:
         ck.violation('model:RxCfg', 'configuration model violates an invariant', vlib.tlc_error_summary(r['out'], 50))
     # (1) per-instruction and per-program results of the PORTABLE build against the same TLA+ oracle as the default build
-    isa = c05.record('portable', ['steps', 'fp', 'rcp'], ck, wd, 'pisa')
+    isa = c05.record('portable', ['steps', 'mulgrid', 'fp', 'rcp'], ck, wd, 'pisa')
     res = vlib.validate_sharded('TraceIsa', 'TraceIsa.cfg', isa, 'c17isa', shards=16, timeout=3000)
     ck.add_traces('TraceIsa(portable)', res, 'portable build: instruction words decoded/executed by BytecodeMachine (generic vector structs, fesetround rounding, 32x32 mulh/smulh, shift rotates), IEEE ops through fenv, reciprocal')
     ck.reject('TraceIsa(portable)', res, lambda rj: 'portable:' + c05.key_of(rj))
@@ -26,8 +26,7 @@ def run():
     def port(variant):
         exe = vlib.build_harness('rx_port', variant=variant)
         outp = os.path.join(wd, 'port_%s.ndjson' % variant)
-        vlib.sh([exe, '--seed', str(ck.seed), '--tier', ck.tier, '--build', 'default' if variant == 'verif' else variant, '--out', outp], timeout=3000)
-        return [l for l in open(outp).read().splitlines() if l]
+        return vlib.run_harness([exe, '--seed', str(ck.seed), '--tier', ck.tier, '--build', 'default' if variant == 'verif' else variant, '--out', outp], outp, timeout=3000)
     with ThreadPoolExecutor(2) as ex:
         pa, pb = list(ex.map(port, ['verif', 'portable']))
     lines = pa + pb
